@@ -115,7 +115,7 @@ func (e *Effects) rootsOf(v ssa.Value) *rootSet {
 			rs.fresh = true
 		case *ssa.Call:
 			// result of a call: fresh unless it is append(x, …), which may alias x
-			if b, ok := x.Call.Value.(*ssa.Builtin); ok && b.Name() == "append" {
+			if b, ok := x.Call.Value.(*ssa.Builtin); ok && nm(b) == "append" {
 				walk(x.Call.Args[0])
 			} else {
 				rs.fresh = true
@@ -316,7 +316,7 @@ func (e *Effects) callEffect(s slot, ci ssa.CallInstruction) (bool, string, toke
 		}
 	}
 	if b, ok := cc.Value.(*ssa.Builtin); ok {
-		switch b.Name() {
+		switch nm(b) {
 		case "append":
 			return false, "", token.NoPos // result aliasing handled by rootsOf; append itself writes only beyond len
 		case "copy":
@@ -344,7 +344,7 @@ func (e *Effects) callEffect(s slot, ci ssa.CallInstruction) (bool, string, toke
 			if len(impls) == 0 {
 				// external interface (e.g. Entry, error.Error): receivers/args are opaque;
 				// error.Error() and fmt.Stringer are pure
-				if cc.Method.Name() == "Error" || cc.Method.Name() == "String" {
+				if nm(cc.Method) == "Error" || nm(cc.Method) == "String" {
 					return false, "", token.NoPos
 				}
 				return true, "passed to an opaque interface method " + cc.Method.Name() + " in " + funcKey(ci.Parent()), ci.Pos()
